@@ -198,6 +198,7 @@ def judge_3d(case, rec):
             rec.nontrivial()
     sigs = []
     for k, p3 in enumerate(parts):
+        lib.warm(p3, case.get("warmup"))
         sv2, q2, label = restricted(sv, q, k)
         p2 = lib.cube(zz9enc.encode(sv2, q2), case["transforms"], case["population"],
                       case["mask_size"]).partitions[0]
